@@ -3337,7 +3337,6 @@ namespace bloch::runtime {
             if (!var)
                 throw BlochError(ErrorCategory::Runtime, aassign->line, aassign->column,
                                  "assignment target must be a variable");
-            Value arr = lookup(var->name);
             Value idxv = eval(aassign->index.get());
             int i = 0;
             if (idxv.type == Value::Type::Int)
@@ -3352,6 +3351,9 @@ namespace bloch::runtime {
                 throw BlochError(ErrorCategory::Runtime, aassign->line, aassign->column,
                                  "index must be numeric");
             Value rhs = eval(aassign->value.get());
+            // Read the array only now: the index and value expressions may have written to it
+            // (a method call that updates the same field array), and those writes must persist.
+            Value arr = lookup(var->name);
             switch (arr.type) {
                 case Value::Type::IntArray:
                     if (i < 0 || i >= static_cast<int>(arr.intArray.size()))
